@@ -208,7 +208,7 @@ func main() {
 		workers := fs.Int("workers", runtime.NumCPU(), "workers")
 		maxp := fs.Int("maxpaths", 200000, "max paths per harness")
 		to := fs.Duration("timeout", 10*time.Minute, "deadline")
-		solver := fs.String("solver", "z3", "z3|z3-new|cvc5")
+		solver := fs.String("solver", "z3-new", "z3|z3-new|cvc5")
 		verbose := fs.Bool("v", false, "verbose")
 		fs.Parse(os.Args[2:])
 		l := load()
